@@ -55,7 +55,9 @@ def hosts():
     ab = d[0]
     abasic = ("A", ab["number"], None, "3DR", "?", [(n, np.array([x, y, z])) for n, x, y, z, el in ab["atoms"] if n in ("P", "OP1", "OP2", "O5'", "C5'", "C4'", "O4'", "C3'", "O3'", "C2'", "O2'", "C1'")])
     h7 = [abasic, _spec(d[1], "A"), _spec(d[2], "A"), _spec(d[12], "B"), _spec(d[13], "B")]
-    return {"two-chains": h1, "gap": h2, "with-ligand": h3, "gap-after-first": h4, "gap-before-last": h5, "chain-returns": h6, "abasic-first": h7}
+    # numbering that goes DOWN across a chain break (41 42 43 | 10 11): no residue is missing between 43 and 10, so no placeholder belongs there
+    h8 = [_spec(d[0], "A", 41), _spec(d[1], "A", 42), _spec(d[2], "A", 43), _spec(d[4], "A", 10), _spec(d[5], "A", 11)]
+    return {"numbers-descend": h8, "two-chains": h1, "gap": h2, "with-ligand": h3, "gap-after-first": h4, "gap-before-last": h5, "chain-returns": h6, "abasic-first": h7}
 
 
 _hosts = {}
